@@ -299,14 +299,19 @@ def main():
             "serves_properties": sorted(CLAIMED),
             "kind_free_text": "repository-specific static analysis on Python ast: source model with class hierarchy and "
                               "import resolution, structured reaching-definitions dataflow, constant folding, format "
-                              "layout, canonical term algebra (normal forms of straight-line arithmetic), "
-                              "physical-dimension inference",
+                              "layout, canonical term algebra (normal forms of straight-line arithmetic), ownership / "
+                              "freshness abstract interpretation, value-numbering fingerprints, and E8: a value-graph "
+                              "equivalence prover (vgraph.py) that proves a restructured function equal to the reference "
+                              "function before a shape rule is allowed to report",
         }],
         "checks": checks,
         "not_applicable": [{"property_id": p, "reason": NOT_YET} for p in ALL if p not in CLAIMED],
         "notes": "Exit codes of every command: 0 pass (known findings printed as KNOWN-FINDING), 1 VIOLATION, "
                  "2 ANALYSIS-ERROR (anchor vanished / vacuous rule / internal error). known_findings.json is committed "
-                 "and never written at run time.",
+                 "and never written at run time. When a rule that recognises code by its shape fails, the check first tries "
+                 "to prove every function of the tree equal to the reference tree (E8, DESIGN section 9); only if that "
+                 "fails is the violation reported. bvstatic/data/*.json are references frozen from the confirmed tree by "
+                 "tools/freeze_*.py and are never written by a check.",
     }
     with open(os.path.join(HERE, "MANIFEST.json"), "w") as f:
         json.dump(man, f, indent=1, ensure_ascii=False)
